@@ -135,6 +135,36 @@ CHECKS = {
          "those of the TLC state, each the JSON of the API result.",
     note="Scratch dirs under the system temp dir (removed); quick tier samples two-operation histories; TLC, CPython trusted.",
     design="DESIGN.md 3.8, 4 (C19)", technique=TECH + " (EntryPoints.tla)"),
+ "C03": dict(
+    text="TLC model-checks SubmittedExact / CleanBoundary / SetsEmitted of spec/Assembler.tla (parser.py's line assembler transcribed "
+         "line by line and validated against the real parser's per-statement events: no drift), OrderKept of Registry.tla and "
+         "SeqModeLocal of Entities.tla over every sequence of <=3 (4) statements from 18 statement shapes (tables, sequences, ALTER, "
+         "views, queries, DML, GRANT, GO, SET, DROP; 1-3 lines each), and must refute them on defective variants. Every complete "
+         "behaviour is rendered (with and without a final line break) and parsed by the real library: the result must be the in-order "
+         "concatenation of what TLC lists for each statement alone (ALTER merged into its table). Corpus scripts made of ;-terminated "
+         "CREATE statements must equal the concatenation of their statements parsed alone (thorough: also reversed).",
+    note="Statement shapes are pool entries with distinct names; <=3-4 statements exhaustive; TLC, PLY, CPython trusted.",
+    design="DESIGN.md 3.2, 4 (C03), Appendix A", technique=TECH + " (Assembler.tla, Registry.tla, Entities.tla)"),
+ "C08": dict(
+    text="TLC model-checks NoCommentInCode / SubmittedExact / CleanBoundary / CommentsFromSource of spec/Assembler.tla over every "
+         "insertion of <=1 (2) comments of eight styles (whole-line --, #, /* */, 2- and 3-line blocks, trailing --, trailing /* */, "
+         "trailing opener; indented or not; text with or without --) at every line position of every script of <=2 statements from 7 "
+         "shapes, and must refute them on two defective scanners. Every complete behaviour is rendered (comment texts full of keywords, "
+         "commas, parentheses, semicolons) and parsed by the real library: entities must be those of the comment-free statements, every "
+         "reported comment item must be part of one source comment, in source order, and contain no code; what the grammar received is "
+         "compared with the model's submissions (drift channel). Deviations TLC tags from the source lines are KNOWN-FINDINGs.",
+    note="Comment texts are quote-free pool entries; bounded scripts; TLC, PLY, CPython trusted.",
+    design="DESIGN.md 3.2, 4 (C08), Appendix A", technique=TECH + " (Assembler.tla)"),
+ "C16": dict(
+    text="spec/Assembler.tla's `submitted` is exactly what reaches the grammar: TLC enumerates every script of <=3 statements from 17 "
+         "shapes (supported statements with unsupported families at every position) and says which scripts let a rejected statement reach "
+         "the grammar. Each is parsed by the real library under silent=True and silent=False (x output modes): silent=True never raises and "
+         "yields the listed entities; silent=False raises DDLParserError (a SimpleDDLParserException) exactly when TLC says so, and otherwise "
+         "returns the identical result. Supported-only behaviours of the TableFold / Registry / Entities / Clauses generators must not raise "
+         "under silent=False; unknown output modes must raise SimpleDDLParserException naming the valid modes.",
+    note="The raising clause is judged for statements that reach the grammar (skip-word lines are skipped in both settings by design); "
+         "TLC, PLY, CPython trusted.",
+    design="DESIGN.md 4 (C16)", technique=TECH + " (Assembler.tla + generators of TableFold/Registry/Entities/Clauses)"),
 }
 NOT_YET = {}
 def main():
